@@ -18,7 +18,7 @@ def valid_compose(rng, R=None):
     ct = rng.choice(R["COMPOSE_TYPES"])
     sfx = {"production": "", "nightly": ".n", "test": ".t", "ci": ".ci", "development": ".d"}.get(ct, "")
     respin = rng.randint(0, 20)
-    c = {"id": "Fedora-%s-%s%s.%d" % (rng.choice(["22", "Rawhide", "9.1"]), date, sfx, respin), "type": ct, "date": date,
+    c = {"id": "Fedora-%s-%s%s.%d" % (rng.choice(["22", "Rawhide", "9.1", "20240101", "123456789.2"]), date, sfx, respin), "type": ct, "date": date,
          "respin": respin, "label": None, "final": False}
     if rng.random() < 0.4:
         c["label"] = "%s-%d.%d" % (rng.choice(R["LABEL_NAMES"]), rng.randint(0, 9), rng.randint(0, 9))
